@@ -276,7 +276,8 @@ fn export(sc: &scnr::Scanner, prefix: &str, dir: &Path) -> &'static str {
 /// programs with mode names and patterns that need care in labels and file names
 fn special_programs() -> Vec<(String, Vec<RealMode>)> {
     let pat = |p: &str, tt: usize| crate::parse::RealPat { pattern: p.to_string(), tt, la: None };
-    let names = ["A\"B", "back\\slash", "ünï cödé", "sp ace", "semi;colon", "brace{}", "q\"\"", "tab\there", "x]y[", "-->", "a=b,c"];
+    let names = ["A\"B", "back\\slash", "ünï cödé", "sp ace", "semi;colon", "brace{}", "q\"\"", "tab\there", "x]y[", "-->", "a=b,c",
+        "V1.5", "dot.", ".hidden", "a.b.c"];
     names
         .iter()
         .enumerate()
@@ -311,7 +312,7 @@ pub fn main(args: &[String]) -> i32 {
         let dir = format!("{scratch}/p{pi}");
         let _ = std::fs::remove_dir_all(&dir);
         std::fs::create_dir_all(&dir).unwrap();
-        let prefix = if pi % 3 == 0 { "pre fix" } else { "P" };
+        let prefix = if pi % 3 == 0 { "pre fix" } else if pi % 3 == 1 { "lexer.v2" } else { "P" };
         let ret = export(&sc, prefix, Path::new(&dir));
         let mut listed: Vec<String> = std::fs::read_dir(&dir).map(|r| r.filter_map(|e| e.ok()).map(|e| e.file_name().to_string_lossy().to_string()).collect()).unwrap_or_default();
         listed.sort();
